@@ -6,14 +6,14 @@ bad=0
 for d in seeded/*/; do
   n=$(basename $d); c=${n%%-*}
   git -C /repo apply /verif/$d/patch.diff || { echo "$n: PATCH DOES NOT APPLY"; bad=1; continue; }
-  r=$(./check $c quick 2>&1 | grep -E "^(OK|VIOLATION|INFRA)" | head -1 | cut -c1-100)
+  r=$(timeout 900 ./check $c quick 2>&1 | grep -E "^(OK|VIOLATION|INFRA)" | head -1 | cut -c1-100)
   git -C /repo checkout -- .
   case "$r" in VIOLATION*) echo "$n: detected ($r)";; *) echo "$n: MISSED ($r)"; bad=1;; esac
 done
 for d in benign/*/; do
   n=$(basename $d); c=${n%%-*}
   git -C /repo apply /verif/$d/patch.diff || { echo "$n: PATCH DOES NOT APPLY"; bad=1; continue; }
-  r=$(./check $c quick 2>&1 | grep -E "^(OK|VIOLATION|INFRA)" | head -1 | cut -c1-100)
+  r=$(timeout 900 ./check $c quick 2>&1 | grep -E "^(OK|VIOLATION|INFRA)" | head -1 | cut -c1-100)
   git -C /repo checkout -- .
   case "$r" in OK*) echo "$n: passes";; *) echo "$n: FALSE ALARM ($r)"; bad=1;; esac
 done
